@@ -373,6 +373,7 @@ BoolCtx(pi, id, par) ==
 WrapHolds(pi, id, f, v, pre, post) ==
   LET ty == N(pi, id).ty pl == PL(pi) IN
   /\ ty \in IntTypes /\ ~IsSigned(ty) /\ Narrow(pl, ty) /\ f.k \in {"eq", "gt", "lt"}
+  /\ (f.k = "eq" => N(pi, id).k # "var")       \* a wrong KNOWN value of a variable is never put into this class
   /\ \/ Holds(pi, id, f, v + Pow2(Bits(pl, ty)), pre, post)
      \/ Holds(pi, id, f, v - Pow2(Bits(pl, ty)), pre, post)
 \* "narrowing-range": on a node of a signed type of less than 32 bits the impossible range holds for v + 2^N or v - 2^N
